@@ -208,3 +208,9 @@ def type_depth(t):
     if t[0] == 'map':
         return 1 + type_depth(t[2])
     return 0
+
+
+def lexer_rewrites(text):
+    """Does stone's lexer change this string literal (known finding, judged by C02: splitlines()+join
+    normalises line breaks and drops a trailing one; a run of 4*indent spaces is removed)?"""
+    return isinstance(text, str) and ('\n'.join(text.splitlines()) != text or '    ' in text)
